@@ -11,7 +11,7 @@ Require Import Zrs.proofs.C13_Huffman.
 Require Import Zrs.model.BitIO Zrs.model.BitStream Zrs.model.HufDec Zrs.proofs.C12_Stream Zrs.proofs.C13_Stream.
 Require Import Zrs.gen.Generated Zrs.model.Headers Zrs.model.BlockDec Zrs.model.LitEnc Zrs.proofs.C13_LitSection.
 Require Import Zrs.proofs.C13_Canonical Zrs.proofs.C13_CanonCode Zrs.proofs.C13_LitAll Zrs.proofs.C13_Direct.
-Require Import Zrs.model.SeqEnc Zrs.model.FseEnc Zrs.model.WeightEnc Zrs.proofs.C12_SeqStream Zrs.proofs.C12_Desc Zrs.proofs.C13_WeightStream Zrs.proofs.C13_WeightDesc.
+Require Import Zrs.model.SeqEnc Zrs.model.FseEnc Zrs.model.WeightEnc Zrs.proofs.C12_SeqStream Zrs.proofs.C12_Desc Zrs.proofs.C13_WeightStream Zrs.proofs.C13_WeightDesc Zrs.proofs.C13_WeightTable.
 Open Scope Z_scope.
 
 Theorem C13_shape_valid : forall n, 2 <= n <= 256 ->
@@ -193,6 +193,20 @@ Theorem C13_fse_compressed_weight_description_roundtrip : forall t al probs d D 
   read_weights t (header :: d ++ stream ++ rest) = ROk (data, D, 1 + header).
 Proof. exact fse_weight_description_roundtrip. Qed.
 
+(** the same with a plain property of the decoding table in place of the hypotheses on the encoder's states: every entry
+    carries at least one bit and has its baseline inside the table *)
+Theorem C13_fse_compressed_weight_description_roundtrip_table : forall t al probs d D syms data rest,
+  5 <= al <= 6 -> dist_ok al probs -> Z.of_nat (length probs) <= t_max_symbol (ht_fse t) + 1 ->
+  desc_bytes al probs = Some d -> fse_build_from_probabilities (ht_fse t) al probs = ROk D ->
+  table_wf D -> entries_carry_a_bit D -> Forall (covers D) syms ->
+  (2 <= length data <= 257)%nat -> Forall (fun x => In x syms) data ->
+  let stream := stream_bytes (weight_fields (enc_of_dec D) data) in
+  let header := zlen d + zlen stream in
+  header < 128 ->
+  read_weights t (header :: d ++ stream ++ rest) = ROk (data, D, 1 + header).
+Proof. exact fse_weight_description_roundtrip'. Qed.
+
+Print Assumptions C13_fse_compressed_weight_description_roundtrip_table.
 Print Assumptions C13_two_state_weight_stream_roundtrip.
 Print Assumptions C13_fse_compressed_weight_description_roundtrip.
 Print Assumptions C13_direct_weight_description_roundtrip.
